@@ -34,17 +34,16 @@ Proof.
 Qed.
 Print Assumptions C14_tokenize_rendered_line.
 
-(* (3) N-Quads, all graphs: outside the double-decoding class the exported text loads back to the same set of
-   quads (in fact to the same list) *)
+(* (3) N-Quads, all graphs: the exported text of EVERY well-formed database loads back to the same set of quads (in
+   fact to the same list).  No known class is left since commit 16f77b9 (the loader interns a cleaned term verbatim). *)
 Theorem C14_nquads :
-  forall db : list quad, wf_db db = true -> known_dd db = false -> same_set (load_nq (gen_nq db)) db.
+  forall db : list quad, wf_db db = true -> same_set (load_nq (gen_nq db)) db.
 Proof. exact nq_roundtrip. Qed.
 Print Assumptions C14_nquads.
 
 (* (4a) N-Triples, default graph *)
 Theorem C14_ntriples :
-  forall db : list quad, wf_db db = true -> known_dd db = false ->
-    same_set (load_nt (gen_nt db)) (default_part db).
+  forall db : list quad, wf_db db = true -> same_set (load_nt (gen_nt db)) (default_part db).
 Proof. exact nt_roundtrip. Qed.
 Print Assumptions C14_ntriples.
 
@@ -58,17 +57,16 @@ Theorem C14_turtle :
 Proof. exact ttl_roundtrip. Qed.
 Print Assumptions C14_turtle.
 
-(* (5) the double-decoding class is a class of genuine violations: the one-character literal consisting of a
-   double quote does not come back (it is read back as the empty string), in any of the three formats *)
-Theorem C14_double_decoding_refuted_nquads :
-  exists db, wf_db db = true /\ known_dd db = true /\ ~ same_set (load_nq (gen_nq db)) db.
-Proof. exists dd_witness. exact dd_refuted_nq. Qed.
-Print Assumptions C14_double_decoding_refuted_nquads.
-
-Theorem C14_double_decoding_refuted_ntriples :
-  exists db, wf_db db = true /\ known_dd db = true /\ ~ same_set (load_nt (gen_nt db)) (default_part db).
-Proof. exists dd_witness. exact dd_refuted_nt. Qed.
-Print Assumptions C14_double_decoding_refuted_ntriples.
+(* (5) double decoding.  Regression for the N-Quads / N-Triples half (repaired by 16f77b9): the pre-fix loader
+   (`load_nq_old`: the decoded value goes through encode_term_star again) loses the one-character literal consisting of
+   a double quote, the repaired loaders keep it.  The Turtle half is still open (the Turtle path is unchanged): the
+   same literal is read back as the empty string. *)
+Theorem C14_double_decoding_regression :
+  wf_db dd_witness = true /\ known_dd dd_witness = true /\
+  ~ same_set (load_nq_old (gen_nq dd_witness)) dd_witness /\ load_nq (gen_nq dd_witness) = dd_witness /\
+  load_nt (gen_nt dd_witness) = dd_witness.
+Proof. exact dd_regression_nq. Qed.
+Print Assumptions C14_double_decoding_regression.
 
 Theorem C14_double_decoding_refuted_turtle :
   exists db, wf_db db = true /\ known_dd_ttl db = true /\
@@ -95,18 +93,16 @@ Proof. exact ets_qt. Qed.
 Print Assumptions C14_ets_quoted.
 
 Theorem C14_nquads_quoted :
-  forall db : list tquad, wf_tdb db = true -> known_dd (tden db) = false ->
-    same_set (load_nq (gen_nq (tden db))) (tden db).
+  forall db : list tquad, wf_tdb db = true -> same_set (load_nq (gen_nq (tden db))) (tden db).
 Proof. exact nq_roundtrip_quoted. Qed.
 Print Assumptions C14_nquads_quoted.
 
 Theorem C14_ntriples_quoted :
-  forall db : list tquad, wf_tdb db = true -> known_dd (tden db) = false ->
-    same_set (load_nt (gen_nt (tden db))) (default_part (tden db)).
+  forall db : list tquad, wf_tdb db = true -> same_set (load_nt (gen_nt (tden db))) (default_part (tden db)).
 Proof. exact nt_roundtrip_quoted. Qed.
 Print Assumptions C14_ntriples_quoted.
 
-(* Turtle: a statement with a quoted-triple subject or object is stored through encode_term_star (so the N-Quads
+(* Turtle: a statement with a quoted-triple subject or object is stored through encode_term_star (so the former N-Quads
    double-decoding class applies to that statement), and a quoted-triple OBJECT must not contain the annotation
    marker "{|" (its components are written bare, outside any literal); both are part of `known_ttl_q` *)
 Theorem C14_turtle_quoted :
@@ -131,12 +127,17 @@ Definition ex_db : list quad :=
     (ex_s, ex_p, [], Some [95;58;103]);                                                          (* empty literal, graph _:g *)
     ([95;58;98], ex_p, [117;114;110;58;120;58;121], Some ex_s);                                  (* _:b  urn:x:y *)
     (ex_s, ex_p, [128512; 233; 46; 59; 44; 35; 60; 120; 62; 94; 64], None) ].
-Example C14_example_wf : wf_db ex_db = true /\ known_dd ex_db = false.
+Example C14_example_wf : wf_db ex_db = true /\ known_dd_ttl ex_db = false.
 Proof. split; vm_compute; reflexivity. Qed.
 Example C14_example_nq : load_nq (gen_nq ex_db) = ex_db.
 Proof. vm_compute. reflexivity. Qed.
 Example C14_example_nt : load_nt (gen_nt ex_db) = default_part ex_db.
 Proof. vm_compute. reflexivity. Qed.
+(* values of the former double-decoding class: a quote, outer whitespace, a leading quote *)
+Definition ex_dd_db : list quad := [ (ex_s, ex_p, [34], None); (ex_s, ex_p, [32; 120; 32], Some ex_s); (ex_s, ex_p, [34; 97; 98; 99], None) ].
+Example C14_example_dd : wf_db ex_dd_db = true /\ known_dd ex_dd_db = true /\
+  load_nq (gen_nq ex_dd_db) = ex_dd_db /\ load_nt (gen_nt ex_dd_db) = default_part ex_dd_db.
+Proof. repeat split; vm_compute; reflexivity. Qed.
 Example C14_example_ttl : known_dd_ttl ex_db = false /\ ttl_same (load_ttl (gen_ttl ex_db)) (default_part ex_db) = true.
 Proof. split; vm_compute; reflexivity. Qed.
 (* literals containing the annotation markers round-trip in Turtle *)
@@ -165,7 +166,7 @@ Definition ex_tdb : list tquad :=
   [ (Quoted ex_q1, ex_p, Quoted ex_q2, None); (Bare ex_s, ex_p, Quoted ex_q1, Some [95;58;103]);
     (Quoted ex_q2, ex_p, Bare [113;32;123;124], None) ;  (Bare ex_s, ex_p2, Quoted ex_q1, None) ].
 Example C14_example_quoted :
-  wf_tdb ex_tdb = true /\ known_dd (tden ex_tdb) = false /\ known_ttl_q ex_tdb = false /\
+  wf_tdb ex_tdb = true /\ known_ttl_q ex_tdb = false /\
   load_nq (gen_nq (tden ex_tdb)) = tden ex_tdb /\ load_nt (gen_nt (tden ex_tdb)) = default_part (tden ex_tdb) /\
   ttl_same (load_ttl (gen_ttl (tden ex_tdb))) (default_part (tden ex_tdb)) = true.
 Proof. repeat split; vm_compute; reflexivity. Qed.
